@@ -100,6 +100,15 @@ def make_spec(st, idx, tier):
                 dict(A, k="poll", history="after_rejected_request"),
                 dict(k="poll", role="other_args", rows=few),
                 dict(A, k="poll", history="after_too_few_units_error")]
+    # the configuration of the same election is edited between polls (first an edited one on a fresh client, then the real one)
+    patches = [dict(aggregates=["postal_code"], features=[], fixed_effect=[])]
+    if len(world["states"]) > 1:
+        patches.append(dict(states=world["states"][:-1]))
+    if any(e in ("dem", "gop") for e in profile["estimands"]):
+        patches.append(dict(baseline_pointer={"dem": "gop", "gop": "dem", "turnout": "turnout"}))
+    seq += [dict(k="crash"),
+            dict(k="poll", role="other_args", override=dict(config_patch=choice(rng, patches))),
+            dict(A, k="poll", history="after_other_configuration")]
     if chance(rng, 0.5):
         seq.insert(3, dict(k="poll", role="other_args", override=dict(estimands=(["margin"] if profile["pi_method"] == "bootstrap" else ["turnout"]),
                                                                      prediction_intervals=[0.6]), reuse_args=True))
